@@ -676,6 +676,7 @@ class Engine(object):
                     ex = cur.fork()
                     if i == 0:
                         ex.zero = ex.zero + (node.lineno,)
+                        ex.facts.setdefault('zeroit', []).append(itval)
                     if hook and hook.get('on_exit'):
                         hook['on_exit'](ex, i)
                     outs.extend(self.exec_block(orelse, ex) if orelse else [Out(NEXT, ex)])
